@@ -50,6 +50,17 @@ Proof.
   split; [exact F|]. rewrite <- is_equal_sym; auto.
 Qed.
 
+(** transitivity: with symmetry and [c18_refl_copy], is_equal is an equivalence on
+    pairwise object-disjoint well-formed trees; sharing between a/b or b/c is irrelevant *)
+Lemma c18_trans a b c :
+  tree_wf (erase a) -> tree_wf (erase b) -> tree_wf (erase c) -> disjoint_objs a c ->
+  is_equal a b = true -> is_equal b c = true -> is_equal a c = true.
+Proof.
+  intros Wa Wb Wc D E1 E2.
+  apply is_equal_sound in E1; auto. apply is_equal_sound in E2; auto.
+  apply c18_iff; auto. eapply tree_eq_trans; eauto.
+Qed.
+
 (** the edit may equally be made on the first argument's side *)
 Lemma c18_single_edit_spec b b' : tree_wf b -> one_edit b b' -> ~ tree_eq b b'.
 Proof. intros W O; apply one_edit_not_eq; auto. Qed.
